@@ -13,7 +13,7 @@ TECHNIQUE = ('property-based testing (Hypothesis): reference-marker discovery (d
              'statistics files vs. an independent Welch/Holm/penetrance reference model computed from the generating cells '
              '(scipy.stats.ttest_ind + own Holm), plus run-to-run relations (worker count / memory budget, cluster renaming) and '
              'a table-transposition census')
-RULE = ('cases = generated per-cluster log2(CPM+1) cell matrices (2-8 clusters of 1-12 cells, 4-24 genes of drawn kinds: strong/weak/partial/no signal, '
+RULE = ('cases = generated per-cluster log2(CPM+1) cell matrices (2-8 clusters of 1-12 cells and 4-24 genes, thorough: up to 10 clusters / 32 genes; genes of drawn kinds: strong/weak/partial/no signal, '
         'zero-variance, all-zero, gridded ties, duplicated columns, values exactly at 1 CPM), thresholds with every strict value above its floor, '
         'optional gene list, n_valid, exact_penetrance, two run configurations (1-3 workers, max_gb 1e-7..20, mask rows-at-a-time) and an optional '
         'cluster renaming; every (pair, gene) of every run is compared with the model; '
@@ -33,6 +33,8 @@ def budget(tier):
 
 
 def strategy(tier):
+    if tier == 'thorough':
+        return G.cases(max_leaves=10, max_genes=32)
     return G.cases()
 
 
@@ -60,6 +62,8 @@ def _markers_rows(spec, cfg):
 def trig_single_pair_worker(spec):
     """D6: some worker of the p-value-mask route receives exactly one pair"""
     n_pairs = _n_pairs(spec)
+    if 'pmask' not in spec.get('routes', ['std', 'pmask']):
+        return False
     for cfg in spec['runs']:
         if n_pairs % _mask_rows(cfg['n_per']) == 1 or n_pairs % _markers_rows(spec, cfg) == 1:
             return True
@@ -80,15 +84,29 @@ def trig_direction_without_marker(spec):
     return False
 
 
+def trig_pmask_single_cell_cluster(spec):
+    """D8: the p-value-mask route is run on a case where a pair contains a cluster of fewer than two cells and
+    some gene of that pair is in the gene list and on or above every floor (so it could be recorded at all)"""
+    if 'pmask' not in spec.get('routes', ['std', 'pmask']):
+        return False
+    if min(spec['sizes']) >= 2:
+        return False
+    for m in G.pair_models(spec).values():
+        if not m.enough and bool((m.allowed & ~m.below_floor).any()):
+            return True
+    return False
+
+
 KNOWN_TRIGGERS = {
     'direction_without_marker': trig_direction_without_marker,
     'single_pair_worker': trig_single_pair_worker,
+    'pmask_single_cell_cluster': trig_pmask_single_cell_cluster,
 }
 
 # defects confirmed by this check whose proposed repair (proposed_fixes/C11_*.diff) is not yet in /repo:
 # their trigger regions are excluded by construction (and counted) so that the search continues behind them.
-# Remove a name once the repair is applied; the regression file then guards it.
-PENDING_REPAIR = ('direction_without_marker', 'single_pair_worker')
+# Remove a name once the repair is applied; the regression files then guard it.
+PENDING_REPAIR = ('direction_without_marker', 'single_pair_worker', 'pmask_single_cell_cluster')
 
 
 def exclude(spec):
